@@ -99,21 +99,8 @@ Qed.
 Lemma lastg_olist o xs g : lastg xs = Some g -> lastg (olist o ++ xs) = Some g.
 Proof. destruct o; simpl; [apply lastg_cons_some|auto]. Qed.
 
-(* ---------- abstract machine: the generator with the looked-up quantities cached ---------- *)
-Record ast := mk_ast { ad : Z; av : Z; alast : bool; lv : Z; apd : Z; aout : list (Z * Z) }.
-
-Definition abound (a : ast) (cd : Z) : ast :=
-  let '(wd, wv, same) := if isg (av a) then (ad a, av a, alast a) else (apd a, lv a, true) in
-  let out1 := if (apd a <=? wd) && (wd <? cd) then aout a ++ [(wv, wd)] else aout a in
-  if same then mk_ast wd wv true (lv a) cd out1
-  else let e' := apd a + 1 in
-       let out2 := if e' <? cd then out1 ++ [(lv a, e')] else out1 in
-       mk_ast e' (lv a) true (lv a) cd out2.
-
-Definition astep (a : ast) (cd v : Z) (real : bool) : ast :=
-  let a1 := if apd a <? cd then abound a cd else a in
-  if real && isg v then mk_ast cd v true v (apd a1) (aout a1)
-  else mk_ast (ad a1) (av a1) false v (apd a1) (aout a1).
+Notation abound := (abound isg).
+Notation astep := (astep isg).
 
 Fixpoint ssorted (l : list Z) : Prop :=
   match l with [] => True | x :: t => Forall (fun y => x < y) t /\ ssorted t end.
@@ -381,8 +368,7 @@ Proof.
      split; [exact Hfo|]; split; [exact Hs|]; split; [exact Hhd|]; exact HJw).
 Qed.
 
-(* all events, then the terminator at dump N *)
-Definition arun (a : ast) (l : list (Z * Z)) : ast := fold_left (fun a e => astep isg a (fst e) (snd e) true) l a.
+Notation arun := (arun isg).
 
 Fixpoint nondecr (x : Z) (l : list (Z * Z)) : Prop :=
   match l with [] => True | e :: t => x <= fst e /\ nondecr (fst e) t end.
@@ -413,8 +399,7 @@ Proof.
     destruct (isg v0) eqn:E; simpl; auto.
 Qed.
 
-Definition afinal (v0 : Z) (l : list (Z * Z)) (N : Z) : list (Z * Z) :=
-  aout (astep isg (arun (mk_ast 0 v0 true v0 0 []) l) N 0 false).
+Notation afinal := (afinal isg).
 
 (* THE rule at the level of dump indices *)
 Lemma afinal_rule v0 l N : nondecr 0 l -> Forall (fun e => fst e < N) ((0, v0) :: l) ->
@@ -436,3 +421,14 @@ Proof.
 Qed.
 
 End Gen4.
+
+(* the hypotheses of afinal_rule are satisfiable and the statement is not vacuous: g@0, a@0, b@1, a@3 over 5 dumps
+   with g greedy: dump 0 is g (greedy beats the later a), a is pushed to dump 1 where the later b wins, ... *)
+Example afinal_example :
+  let isg := fun v => memZ v [3] in
+  nondecr 0 [(0, 1); (1, 2); (3, 1)] /\ Forall (fun e => fst e < 5) ((0, 3) :: [(0, 1); (1, 2); (3, 1)]) /\
+  afinal isg 3 [(0, 1); (1, 2); (3, 1)] 5 = [(3, 0); (2, 1); (1, 3)] /\
+  map (ivalue isg ((0, 3) :: [(0, 1); (1, 2); (3, 1)])) [0; 1; 2; 3; 4] = [3; 2; 2; 1; 1].
+Proof.
+  simpl. split; [lia|]. split; [repeat constructor|]. split; reflexivity.
+Qed.
